@@ -2,6 +2,7 @@ package main
 
 import (
 	"fmt"
+	"path"
 	"strings"
 	"sync"
 	"time"
@@ -42,7 +43,11 @@ func expectWalk(ws []WalkObs, c *tok.Conc) []real.WalkRec {
 		if w.Level > 1 {
 			row = br + " " + name
 		}
-		out[i] = real.WalkRec{Name: name, Branch: br, Row: row, Path: strings.Join(names, "/"), Level: uint(w.Level), HasChild: w.HasChild}
+		pth := strings.Join(names, "/")
+		if w.Level > 1 && strings.Contains(strings.Join(names, ""), "/") {
+			pth = path.Clean(pth) // names that are not single path elements: Path is not claimed, compare up to cleaning
+		}
+		out[i] = real.WalkRec{Name: name, Branch: br, Row: row, Path: pth, Level: uint(w.Level), HasChild: w.HasChild}
 	}
 	return out
 }
